@@ -110,18 +110,20 @@ def accept_harness(T, lbw, lbh, cbw, cbh, name):
            unw=max(ln, cn) * (2 if T == 'u16' else 1) + 2)
 
 
-def decode_harness(T, ssx, ssy, w, h, name, bd, symbolic_content, pointwise):
+def decode_harness(T, ssx, ssy, w, h, name, bd, symbolic_content, pointwise, ue=0, ve=1):
     """Accepted frame -> ycbcr_to_ypbpr with every get_unchecked inside its buffer (C07);
     with pointwise=True also: output pixel (x,y) == kernels(Y(x,y), U/V(x>>ssx, y>>ssy)) bit for bit,
     source unmodified (C11)."""
     lbw, lbh = w + 1, h + 1
     cw, ch = max(w >> ssx, 1), max(h >> ssy, 1)
     cbw, cbh = cw + 1, ch + 1
-    ln, cn = lbw * lbh, cbw * cbh
+    # the two chroma planes live in buffers of different widths, so their strides differ (as planes with different padding do)
+    ubw, vbw = cbw + ue, cbw + ve
+    ln, cn, un, vn = lbw * lbh, max(ubw, vbw) * cbh, ubw * cbh, vbw * cbh
     if symbolic_content:
-        bufs = "let yb: [%s; %d] = kani::any(); let ub: [%s; %d] = kani::any(); let vb: [%s; %d] = kani::any();" % (T, ln, T, cn, T, cn)
+        bufs = "let yb: [%s; %d] = kani::any(); let ub: [%s; %d] = kani::any(); let vb: [%s; %d] = kani::any();" % (T, ln, T, un, T, vn)
     else:
-        bufs = "let yb = [0 as %s; %d]; let ub = [0 as %s; %d]; let vb = [0 as %s; %d];" % (T, ln, T, cn, T, cn)
+        bufs = "let yb = [0 as %s; %d]; let ub = [0 as %s; %d]; let vb = [0 as %s; %d];" % (T, ln, T, un, T, vn)
     pw = ""
     if pointwise:
         pw = r'''
@@ -144,8 +146,8 @@ def decode_harness(T, ssx, ssy, w, h, name, bd, symbolic_content, pointwise):
         %(bufs)s
         let f: Frame<%(T)s> = Frame { planes: [
             plane_win::<%(T)s, %(ln)d>(&yb, %(lbw)d, %(w)d, %(h)d, 0, 0),
-            plane_win::<%(T)s, %(cn)d>(&ub, %(cbw)d, any_dim(%(cbw)d), any_dim(%(cbh)d), %(ssx)d, %(ssy)d),
-            plane_win::<%(T)s, %(cn)d>(&vb, %(cbw)d, any_dim(%(cbw)d), any_dim(%(cbh)d), %(ssx)d, %(ssy)d)] };
+            plane_win::<%(T)s, %(un)d>(&ub, %(ubw)d, any_dim(%(ubw)d), any_dim(%(cbh)d), %(ssx)d, %(ssy)d),
+            plane_win::<%(T)s, %(vn)d>(&vb, %(vbw)d, any_dim(%(vbw)d), any_dim(%(cbh)d), %(ssx)d, %(ssy)d)] };
         let c = cfg(%(bd)d, %(ssx)d, %(ssy)d, kani::any());
         let keep = f.clone();
         let r = Yuv::new(f, c);
@@ -156,7 +158,7 @@ def decode_harness(T, ssx, ssy, w, h, name, bd, symbolic_content, pointwise):
             kani::cover!(o.len() == %(w)d * %(h)d, "decoded");%(pw)s
         }
     }
-''' % dict(name=name, T=T, bufs=bufs, ln=ln, cn=cn, lbw=lbw, cbw=cbw, cbh=cbh, w=w, h=h, ssx=ssx, ssy=ssy, bd=bd,
+''' % dict(name=name, T=T, bufs=bufs, ln=ln, cn=cn, un=un, vn=vn, ubw=ubw, vbw=vbw, lbw=lbw, cbw=cbw, cbh=cbh, w=w, h=h, ssx=ssx, ssy=ssy, bd=bd,
            pw=pw, unw=max(max(ln, cn) * (2 if (T == 'u16' and pointwise) else 1), w * h) + 2)
 
 
